@@ -262,8 +262,13 @@ struct smoothed_aggr_emin {
                 }
             }
 
-            for(size_t i = 0, m = omega.size(); i < m; ++i)
-                omega[i] = math::inverse(denum[i]) * omega[i];
+            for(size_t i = 0, m = omega.size(); i < m; ++i) {
+                // A vanishing column of A D^-1 A P_tent needs no damping
+                // (and would otherwise give 0/0):
+                omega[i] = math::is_zero(denum[i])
+                    ? math::zero<Val>()
+                    : math::inverse(denum[i]) * omega[i];
+            }
 
             // Update AP to obtain P: P = (P_tent - D^-1 A P Omega)
             /*
